@@ -493,10 +493,13 @@ pub fn make(plan: &str, seed: u64, count: usize, tier: &str, wave: u64) -> (Vec<
                     ("sub1", memo_variant(&g, &mut |n| bytes[names.iter().position(|x| x == n).unwrap_or(0) % 64] & 1 == 1)),
                     ("sub2", memo_variant(&g, &mut |n| bytes[names.iter().position(|x| x == n).unwrap_or(0) % 64] & 2 == 2)),
                 ];
+                // every third group is generated with a user context type (hooks take the context)
+                let ctx = k % 3 == 2;
                 for (vi, (role, vg)) in variants.into_iter().enumerate() {
-                    let mut s = spec(format!("g{:04}v{}", k, vi), plan, vg);
+                    let mut s = spec(format!("g{:04}v{}", k, vi), plan, if ctx { to_ctx(&vg) } else { vg });
                     s.group = Some(format!("m{:04}", k));
                     s.role = role.to_string();
+                    s.cfg.user_ctx = ctx;
                     specs.push(s);
                 }
             }
@@ -507,8 +510,11 @@ pub fn make(plan: &str, seed: u64, count: usize, tier: &str, wave: u64) -> (Vec<
                 // half of the grammars: all rules memoized (global bound applies)
                 let all = idx % 2 == 0;
                 let g2 = if all { memo_variant(&g, &mut |_| true) } else { g };
-                let mut s = spec(format!("g{:04}", k), plan, add_probes(&g2));
+                let ctx = k % 3 == 2;
+                let gp = add_probes(&g2);
+                let mut s = spec(format!("g{:04}", k), plan, if ctx { to_ctx(&gp) } else { gp });
                 s.role = if all { "all_memoized".into() } else { "subset".into() };
+                s.cfg.user_ctx = ctx;
                 specs.push(s);
             }
         }
